@@ -159,6 +159,7 @@ CHECKS = {
  'C20': dict(
    text='The schema_config of every public class (29: graders, samplers, comparers, credit schedules, SpecifyDomain) is TRANSLATED from the live voluptuous objects into terms of a Lean model of the voluptuous fragment the library uses (types with Python isinstance semantics, literals with Python equality, Any, All, Range, Length, NotIn, homogeneous lists, dictionaries with Required/Optional keys, defaults and the extra-keys policy; named validator functions as opaque prims) on every run. '
         'Proved for every schema of the fragment: the validated configuration binds every option that is supplied or has a default, to the supplied value or else the default (option names distinct); unknown option names are rejected; an out-of-domain value of a known option is rejected; validation is idempotent - a validated configuration validates to itself - provided every default lies in its own option\'s domain; the result depends on the supplied bindings only through lookup (keyword-argument and dictionary forms are equivalent). '
+        'The normalisation of `answers` (ItemGrader.schema_answers / validate_single_answer / schema_answer / validate_expect_tuple) is modelled and proved to produce the canonical tuple of dictionaries with credits in [0,1], ok pinned only at full credit, bare and dictionary forms equivalent, re-validation the identity; validated answers meet the hypothesis of the C01 grader-tree theorems. '
         'Kernel-checked obligations on the regenerated schemas: option names are distinct and every default lies in the domain of its own option, in every class; the regenerated schemas equal the documented tables (names, required/optional, defaults, domains). '
         'Tie: for every class and every option without a named validator, the minimal configuration with that option set to each value of a pool of in-domain and out-of-domain values, unknown keys and random multi-option combinations: validate_config outcome and validated configuration vs the model, constructor raises only configuration/validation errors; '
         'per class: every option present with its default, Cls(obj.config) == obj, kwargs vs dict; non-default configurations in both forms compared for equality and grading behaviour; 40 cross-option rule violations (whitelist+blacklist, unordered subgrader lists, groupings, nested delimiters, collisions/overrides, sample_from, input_positions, answer-list lengths, impossible matrix combinations ...) and the documented answers formats with their canonical form.',
